@@ -1,6 +1,8 @@
 package config
 
 import (
+	"bytes"
+	"encoding/json"
 	"fmt"
 	"reflect"
 )
@@ -23,6 +25,23 @@ func (c *Config) verify() error {
 	}
 
 	return nil
+}
+
+// Verifies the configuration as it would be read back from the file (without command-line overrides).
+func (c *Config) verifyPersisted() error {
+	data, err := json.Marshal(c)
+	if err != nil {
+		return err
+	}
+
+	decoder := json.NewDecoder(bytes.NewReader(data))
+	decoder.DisallowUnknownFields()
+
+	var persisted Config
+	if err := decoder.Decode(&persisted); err != nil {
+		return err
+	}
+	return persisted.verify()
 }
 
 func checkIsSetRecursive(val reflect.Value) error {
